@@ -236,3 +236,33 @@ Theorem C17_sticky_interleaved : forall l,
    forall a, In (Some a) (snd (io_run observed_guards_bitbucket green l)) -> a = "SUCCESSFUL"%string).
 Proof. exact sticky_interleaved_observed. Qed.
 Print Assumptions C17_sticky_interleaved.
+
+(* ---- the conditional-request cache of the GitHub client in front of a host with validators (Model/CondCache.v) ----
+   Polls reach the host through Client._get, which answers a 304 from its own cache.  Whenever the cache key
+   determines the resource, every GET returns what the host holds for the requested resource at that moment: for
+   every sequence of requests, content changes on the host and evictions, whichever validator the host sends
+   (none, Last-Modified, ETag).  Client._mk_key is observed to separate resources (Generated/Facts_C17.v); with a key
+   that forgets part of the request the statement is false (C17_conditional_cache_needs_the_key). *)
+Require Import BertE.Model.CondCache BertE.Proofs.CondCacheProofs.
+
+Theorem C17_conditional_cache_sound : forall keyf : nat -> nat,
+  (forall a b, keyf a = keyf b -> a = b) ->
+  forall m ops, answers keyf m ops = spec_answers init_host ops.
+Proof. exact cache_sound. Qed.
+Print Assumptions C17_conditional_cache_sound.
+
+Theorem C17_observed_mk_key : mk_key_separates_resources = true.
+Proof. exact observed_mk_key_separates. Qed.
+Print Assumptions C17_observed_mk_key.
+
+Theorem C17_conditional_cache_used :
+  answers key_id HDate [Change 2 7; Get 2; Get 2; Change 2 9; Get 2; Get 3] = [7; 7; 9; 0]%nat
+  /\ List.length (s_cache (fst (crun key_id HDate init_state [Change 2 7; Get 2; Get 2]))) = 1%nat.
+Proof. exact cache_is_used. Qed.
+Print Assumptions C17_conditional_cache_used.
+
+Theorem C17_conditional_cache_needs_the_key :
+  answers key_lossy HDate [Change 3 5; Change 2 7; Get 2; Get 3] = [7; 7]%nat
+  /\ spec_answers init_host [Change 3 5; Change 2 7; Get 2; Get 3] = [7; 5]%nat.
+Proof. exact stale_for_another_resource. Qed.
+Print Assumptions C17_conditional_cache_needs_the_key.
